@@ -144,7 +144,8 @@ func GenSchema(t *rapid.T, o SchemaOpts) *Schema {
 		n := rapid.IntRange(1, 3).Draw(t, "nThesauri")
 		pool := []string{"syn", "thes2", "Ωsyn", "coll"}
 		s.Thesauri = rapid.SliceOfNDistinct(rapid.SampledFrom(pool), n, n, rapid.ID[string]).Draw(t, "thesauri")
-		s.SynTerms = []string{"happy", "glad", "joyful", "sad", "x", "é", "big", "large", "\x01"}
+		// "plumless" and "buckeroo" have the same CRC-32 (identifiers derived from content hashes collide on them)
+		s.SynTerms = []string{"happy", "plumless", "buckeroo", "glad", "joyful", "sad", "x", "é", "big", "large", "\x01"}
 	}
 	if o.Vectors == 2 || (o.Vectors == 1 && Chance(t, "hasVec", 25)) {
 		n := rapid.IntRange(1, 2).Draw(t, "nVecFields")
